@@ -171,6 +171,7 @@ inductive VStep where
   | endIdent (s : Seg)     -- an identifier ended *before* this character, which is then dispatched
   | reject
   | panic
+  deriving DecidableEq
 
 /-- dispatch of a character where a segment may start. `dotOk`: a `.` may come first
     (not right after the prefix or another `.`); `restOk`: something other than a field may come
@@ -274,17 +275,18 @@ inductive VTarget where
   | panic
   deriving DecidableEq
 
+def VTarget.ofVResult (pfx : Prefix) : VResult → VTarget
+  | .path p => .path ⟨pfx, p⟩
+  | .nopath => .nopath
+  | .panic => .panic
+
 /-- the text as a whole VRL program: leading blanks, prefix, segments, trailing blanks. -/
 def vrlPath : List Char → VTarget
   | [] => .nopath
   | c :: rest =>
     if isBlank c then vrlPath rest
-    else
-      let go (pfx : Prefix) : VTarget :=
-        match vrun .afterPrefix rest with
-        | .path p => .path ⟨pfx, p⟩
-        | .nopath => .nopath
-        | .panic => .panic
-      if c == '.' then go .event else if c == '%' then go .metadata else .nopath
+    else if c == '.' then VTarget.ofVResult .event (vrun .afterPrefix rest)
+    else if c == '%' then VTarget.ofVResult .metadata (vrun .afterPrefix rest)
+    else .nopath
 
 end PathVrl
